@@ -55,6 +55,7 @@ type popBehaviour struct {
 	Names   []string  `json:"names"`
 	Steps   []popStep `json:"steps"`
 	Timeout int       `json:"timeout_ms"`
+	SrvTimeout int    `json:"srv_timeout_ms"` // POP3 idle timeout of the server (default 120 s)
 }
 
 type popInput struct {
@@ -274,7 +275,11 @@ func runPOP3Behaviour(w *tr.Writer, b popBehaviour, scratch string) {
 		w.Emit(tr.Ev{"a": "harness-error", "t": b.ID, "err": err.Error()})
 		return
 	}
-	server, err := pop3.NewServer(config.POP3{Addr: "127.0.0.1:0", Domain: "inbucket.test", Timeout: 120 * time.Second}, store)
+	srvTimeout := 120 * time.Second
+	if b.SrvTimeout > 0 {
+		srvTimeout = time.Duration(b.SrvTimeout) * time.Millisecond
+	}
+	server, err := pop3.NewServer(config.POP3{Addr: "127.0.0.1:0", Domain: "inbucket.test", Timeout: srvTimeout}, store)
 	if err != nil {
 		w.Emit(tr.Ev{"a": "harness-error", "t": b.ID, "err": err.Error()})
 		return
@@ -392,6 +397,17 @@ func runPOP3Behaviour(w *tr.Writer, b popBehaviour, scratch string) {
 			closed = false
 			ev["a"] = "connect"
 			put(ev, connect())
+		case "idle":
+			// say nothing until the server's idle timeout ends the session; then hang up
+			ev["a"] = "drop"
+			if !closed {
+				_ = ssn.client.SetReadDeadline(time.Now().Add(srvTimeout + 2*time.Second))
+				_, _ = io.ReadAll(ssn.br)
+				ssn.client.Close()
+				closed = true
+			}
+			ev["returned"] = waitEnd()
+			ev["panic"] = ssn.panicText()
 		case "drop", "cut":
 			// optionally send an unterminated prefix, then hang up
 			ev["a"] = "drop"
